@@ -477,7 +477,7 @@ def forward_local_arrays(ps):
         if p["kind"] == "store" and p["lv"][0] == "idx" and len(p["loops"]) >= 1 and p["op"] == "=":
             base = p["lv"][1]
             r = sym.root_of(base)
-            if r is not None and r[0] in ("var", "new") and base == r and p["lv"][2] == p["loops"][-1]["var"] \
+            if r is not None and r[0] in ("var", "new") and base == r and p["lv"][2] == p["loops"][-1].get("var") \
                     and not (p.get("algorithm") == "std::vector"):
                 fills.setdefault(base, []).append(p)
     # the value-initialisation of a std::vector is not a fill: drop it from the candidates when a real fill exists
